@@ -1074,10 +1074,6 @@ def census(recs, cen):
 def run(ctx):
     B = BOUNDS[ctx.tier]
     kinds = {"wm", "wm2", "cl", "ip", "cv", "rp", "sc", "tk"}
-    DBG = os.environ.get("VH_C18_KINDS")          # DEVELOPMENT ONLY
-    if DBG:
-        kinds = set(DBG.split(","))
-    small = dict(jvm=["-Xmx1200m"]) if DBG else {}
     consts = dict(B, Kinds=kinds, MedVariantGE=False, TkVariantBounds=False, DoExport=False, RepFull=not ctx.quick)
     # 1. design level: definitions agree, mechanisms refine the property, no overflow - the whole space.
     #    Per-action coverage (vacuity guard) is costly on the large space: in the thorough tier it is taken on the quick
@@ -1085,7 +1081,7 @@ def run(ctx):
     if ctx.quick:
         ctx.tlc("StatsMC.tla", what="definitions agree + mechanisms refine property (exhaustive)",
                 cfg_text=cfg(constants=consts, invariants=INVARIANTS, properties=["ClipShrinks"]),
-                workers=16, require=() if DBG else ACTIONS, timeout=3000, **small)
+                workers=16, require=ACTIONS, timeout=3000)
     else:
         ctx.tlc("StatsMC.tla", what="definitions agree + mechanisms refine property (quick bounds, action coverage)",
                 cfg_text=cfg(constants=dict(consts, **dict(BOUNDS["quick"], RepFull=False)), invariants=INVARIANTS, properties=["ClipShrinks"]),
@@ -1096,10 +1092,10 @@ def run(ctx):
     # 1a. the predicate forms of the clipping relations (used by the trace module) equal the set forms, and the
     #     tolerance-aware relations contain the exact ones / coincide with them at tolerance 0: on every pair of subsets
     #     of every clipping state of a small scope (SUBSET x SUBSET per state - too expensive on the thorough bounds)
-    r1a = DBG or ctx.tlc("StatsMC.tla", what="clipping relations: predicate = set form, tolerance-aware contains exact (small scope)",
+    r1a = ctx.tlc("StatsMC.tla", what="clipping relations: predicate = set form, tolerance-aware contains exact (small scope)",
                   cfg_text=cfg(constants=dict(consts, Kinds={"cl"}, **CLIP_THEOREM_BOUNDS[ctx.tier]), invariants=CLIP_THEOREMS, next_="NextExport"),
                   workers=16, coverage=False, timeout=3000)      # (NextExport: the cases only - the theorems do not read the iteration state)
-    if not DBG and r1a.distinct < 500:
+    if r1a.distinct < 500:
         raise MachineryError("clipping-relation run too small: %d states" % r1a.distinct)
     # 1b. non-vacuity of MedRefines: a deviating loop test must violate it
     r1b = ctx.tlc("StatsMC.tla", what="self-test: deviating wmedian loop violates MedRefines",
@@ -1110,13 +1106,13 @@ def run(ctx):
     # 1c. non-vacuity of TkRefines: a clipping test against bounds rounded to the floating-point grid must violate it
     r1c = ctx.tlc("StatsMC.tla", what="self-test: clipping bounds rounded to the grid violate TkRefines",
                   cfg_text=cfg(constants=dict(consts, Kinds={"tk"}, TkVariantBounds=True), invariants=["TkRefines"]),
-                  workers=2, allow_violation=True, coverage=False, **small)
+                  workers=2, allow_violation=True, coverage=False)
     if "TkRefines" not in r1c.violated:
         raise MachineryError("self-test failed: TkRefines not violated by the deviating mechanism")
     # 2. export every case (spec -> code)
     r2 = ctx.tlc("StatsMC.tla", what="export cases",
                  cfg_text=cfg(constants=dict(consts, DoExport=True), next_="NextExport", constraints=["Export"]),
-                 workers=1, coverage=False, timeout=3000, **small)
+                 workers=1, coverage=False, timeout=3000)
     cases = r2.records.get("CASE", [])
     opts = (r2.records.get("OPTS") or [None])[0]
     if not cases or not opts:
@@ -1125,7 +1121,7 @@ def run(ctx):
     nkinds = {}
     for cse in cases:
         nkinds[cse["op"]] = nkinds.get(cse["op"], 0) + 1
-    if set(nkinds) != {"wm", "cl", "ip", "cv", "sc"} and not DBG:
+    if set(nkinds) != {"wm", "cl", "ip", "cv", "sc"}:
         raise MachineryError("export incomplete: %s" % nkinds)
     jobs = []
     for cse in cases:
@@ -1155,8 +1151,7 @@ def run(ctx):
     nrec = batch(jobs, "judge replayed cases (StatsTrace)")
     # 3. larger seeded cases (code -> spec)
     nrand = 1500 if ctx.quick else 20000
-    if DBG:
-        nrand = 300
+
     sj = seeded_jobs(random.Random(ctx.seed), nrand, opts)
     nseed = batch([(nrec + 1 + i, op, c, ps) for i, (op, c, ps) in enumerate(sj)], "judge seeded larger cases (StatsTrace)")
     # 4. vacuity guards on the two added dimensions, binding self-test
@@ -1172,10 +1167,9 @@ def run(ctx):
             ["interval:" + op for op in ("wmom", "clip", "interp", "gstats")] + ["clip_with_tolerance"] +
             ["type_spanning_integers:" + op for op in EXEC])
     missing = [k for k in need if not cen.get(k)]
-    if missing and not ctx.violations and not DBG:
+    if missing and not ctx.violations:
         raise MachineryError("vacuous run: nothing exercised %s" % missing)
-    if not DBG:
-        selftest(ctx, probe)
+    selftest(ctx, probe)
     ctx.rule = ("every (data, weights) pair with data of length %d..%d over %d lattice values and weights over %s (total <= %d) x "
                 "calcerr x sdev x inputmean in {none, %s}; every N-by-2 input (N <= %d) with 1-d and N-by-2 weights; every clipping "
                 "input of length <= %d over %s (weighted: length <= %d, weights %s) x nsig in %s x niter 0..%d (each iteration "
